@@ -214,13 +214,7 @@ func snapshotHash(m *queue.MemoryStore) string {
 		fmt.Fprintf(h, "%s|%s|%s|%s|%d|%d|%d|%x|%s|%s|%s|%d\n", e.ID, e.Route, e.Target, e.State, e.ReceivedAt.UnixNano(),
 			e.Attempt, e.NextRunAt.UnixNano(), e.Payload, strings.Join(hs, ","), e.DeadReason, e.LeaseID, e.LeaseUntil.UnixNano())
 	}
-	li := m.VerifLeaseIndex()
-	ks := make([]string, 0, len(li))
-	for k, v := range li {
-		ks = append(ks, k+">"+v)
-	}
-	sort.Strings(ks)
-	fmt.Fprintf(h, "%s", strings.Join(ks, ","))
+	fmt.Fprintf(h, "%s", strings.Join(m.VerifLeaseIndex(), ","))
 	return hex.EncodeToString(h.Sum(nil))
 }
 
